@@ -1,0 +1,49 @@
+//go:build verif
+
+package logx
+
+// Contracts for the deductive verifier in /verif (govc). Comment-only file: adds no code.
+
+// rotate: close, rename current -> backup (name fixed before), recreate; on success the logger holds the
+// handle of the file just created, so records keep flowing.
+//@ func (*RotateLogger).rotate
+//@   prop C19
+//@   requires l != nil
+//@   observe HadFile = old(l.fp) != nil
+//@   observe HadBackup = len(old(l.backup)) > 0
+//@   observe StatErr = ret(os.Stat, 1) != nil
+//@   replay logx_rotate
+//@   ensures [reopened] result == nil ==> l.fp != nil && l.fp == ret(os.Create, 0) && calls(os.Create, old(l.filename)) == 1
+//@   ensures [failed-create] calls(os.Create) == 1 && ret(os.Create, 1) != nil ==> result != nil && l.fp == nil
+//@   ensures [order] before(Close, os.Rename) && before(os.Rename, os.Create) && before(Close, os.Create)
+//@   ensures [rename-current-to-backup] calls(os.Rename) <= 1 && (calls(os.Rename) == 1 ==> arg(os.Rename, 0) == old(l.filename) && arg(os.Rename, 1) == old(l.backup))
+//@   ensures [rename-iff] calls(os.Create) == 1 ==> (calls(os.Rename) == 1) == (ret(os.Stat, 1) == nil && len(old(l.backup)) > 0)
+//@   ensures [next-backup-name] calls(os.Create) == 1 ==> l.backup == ret(l.rule.BackupFilename, 0)
+//@   ensures [close-old] old(l.fp) != nil ==> calls(old(l.fp).Close) == 1
+//@   ensures [filename-kept] l.filename == old(l.filename)
+//@   modifies l.fp, l.backup
+
+// write: the record goes to the file that is current after the (possible) rotation, exactly once.
+//@ func (*RotateLogger).write
+//@   prop C19
+//@   requires l != nil
+//@   let rotated = calls(l.rotate) == 1 && ret(l.rotate) == nil
+//@   ensures [written-once] l.fp != nil ==> calls(l.fp.Write, v) == 1 && calls(Write) == 1
+//@   ensures [not-dropped] (calls(l.rotate) == 0 && old(l.fp) != nil) || rotated ==> l.fp != nil
+//@   ensures [size-accounting] l.fp != nil ==> l.currentSize == ite(rotated, 0, old(l.currentSize)) + len(v)
+//@   ensures [rotate-iff] (calls(l.rotate) == 1) == ret(l.rule.ShallRotate) && calls(l.rule.ShallRotate, old(l.currentSize) + len(v)) == 1
+//@   ensures [mark-rotated] (calls(l.rule.MarkRotated) == 1) == rotated
+//@   ensures [rotate-before-write] before(rotate, Write)
+
+//@ func (*SizeLimitRotateRule).ShallRotate
+//@   prop C19
+//@   requires r != nil
+//@   ensures [size-rule] result == (r.maxSize > 0 && r.maxSize < size)
+//@   modifies nothing
+
+//@ func (*DailyRotateRule).ShallRotate
+//@   prop C19
+//@   requires r != nil
+//@   ensures [daily-rule] result == (len(r.rotatedTime) > 0 && ret(getNowDate) != r.rotatedTime)
+//@   modifies nothing
+//@   opaque getNowDate
